@@ -73,6 +73,7 @@ THEOREMS = [
     "C03_flip_nohb_table",
     "C03_water_nohb_table",
     "C03_water_names_refuted",
+    "C03_split_hidden_ends",
     "C03_residue_init_nodup",
     "C03_residue_init_layers",
     "C03_layers_agree",
@@ -433,6 +434,26 @@ def build_structures(ctx):
     ww = [replace(a, chain="A", resseq=100 + a.resseq) for a in B.waters(3, around=pw, chain="W", rng=nrng)]
     out.append(("layout-water-samechain-after", pw + ww, {}))
     out.append(("layout-water-samechain-before", ww + pw, {}))
+    # 6f. 1..4 strands under ONE chain ID, separated only by hidden chain ends (OXT on the strand's last
+    # residue; nucleotides: a 3' H3T), written without any TER and with a TER after every strand
+    for kst in (1, 2, 3, 4):
+        strands = []
+        for s_ in range(kst):
+            seq_ = [["SER", "ALA", "GLY"], ["ASN", "LEU", "GLY", "THR"], ["GLY", "HIS", "ALA"], ["LYS", "GLY", "SER"]][s_]
+            strands.append(B.build_peptide(seq_, chain="A", start=1 + 10 * s_, origin=(0.0, 40.0 * s_, 0.0), cterm_oxt=True))
+        flat = [a for s_ in strands for a in s_]
+        out.append((f"hidden-ends-{kst}-noter", flat, {"text": B.to_pdb(flat, ter=False), "hidden": kst}))
+        if kst > 1:
+            out.append((f"hidden-ends-{kst}-ter", flat, {"text": B.to_pdb(strands), "hidden": kst}))
+    try:
+        ns_ = []
+        for s_ in range(3):
+            st = B.build_strand("ACG", chain="B", start=1 + 10 * s_, origin=(0.0, 0.0, 60.0 * s_), hydrogens=True)
+            ns_ += st
+        if any(a.name == "H3T" for a in ns_):
+            out.append(("hidden-ends-na-3", ns_, {"text": B.to_pdb(ns_, ter=False), "hidden": 3, "hyd": True}))
+    except Exception:  # noqa: BLE001
+        pass
     # 7. random side-chain deletions (whole side chains too) on a 20-residue peptide, one unknown atom
     for k in range(3):
         seq = aas[:]
@@ -589,7 +610,13 @@ def run_structure(ctx, atoms, opts, ff, veto=None, monitor=True, phrng=None, tex
 
     args = [f"--ff={ff}", "--keep-chain"]
     use_ph = "PH" in opts
-    args += [o for o in opts if o != "PH"]
+    args += [o for o in opts if o not in ("PH", "PDBOUT")]
+    pdbout = None
+    if "PDBOUT" in opts:
+        pdbout = ctx.scratch_dir() / "out_model.pdb"
+        if pdbout.exists():
+            pdbout.unlink()
+        args.append(f"--pdb-output={pdbout}")
     if "--neutraln" in opts and ff != "PARSE":
         args = [a for a in args if a not in ("--neutraln", "--neutralc")]
     saved = []
@@ -649,6 +676,7 @@ def run_structure(ctx, atoms, opts, ff, veto=None, monitor=True, phrng=None, tex
             setattr(obj, name, old)
     r["rmon"] = rmon
     r["args"] = args
+    r["pdb_output_text"] = pdbout.read_text() if (pdbout is not None and pdbout.exists()) else None
     r["free"] = bool(veto is not None and getattr(veto, "free", False))
     r["mon"] = mon
     r["pdb_text"] = text
@@ -667,6 +695,7 @@ class RepairMonitor:
     def __init__(self):
         self.repair = []  # dicts
         self.addh = []
+        self.splits = []
 
     def active(self):
         import contextlib
@@ -756,6 +785,39 @@ class RepairMonitor:
                         del r["res"]
                     mon.addh += recs
 
+            o_term = biomolecule.Biomolecule.set_termini
+
+            def termini(self_, *a, **kw):
+                before = [(ch, list(ch.residues)) for ch in self_.chains]
+                try:
+                    return o_term(self_, *a, **kw)
+                finally:
+                    where = {}
+                    for ch in self_.chains:
+                        for res in ch.residues:
+                            where.setdefault(id(res), []).append(id(ch))
+                    for ch, rs in before:
+                        marks = []
+                        poly = [k_ for k_, res in enumerate(rs) if isinstance(res, (aa.Amino, na_.Nucleic))]
+                        lastpoly = poly[-1] if poly else -1
+                        for k_, res in enumerate(rs):
+                            m_ = (isinstance(res, aa.Amino) and res.has_atom("OXT")) or (
+                                isinstance(res, na_.Nucleic) and (res.has_atom("H3T") or res.name.endswith("3")))
+                            marks.append(bool(m_) and k_ != lastpoly)  # the chain's own last polymer residue is its terminus
+                        segs, cur, last = [], 0, None
+                        for res in rs:
+                            w = tuple(where.get(id(res), []))
+                            if w != last and cur:
+                                segs.append(cur)
+                                cur = 0
+                            last = w
+                            cur += 1
+                        if cur:
+                            segs.append(cur)
+                        mon.splits.append({"marks": marks, "segments": segs, "chain": ch.chain_id,
+                                           "multi": [str(res) for res in rs if len(where.get(id(res), [])) != 1]})
+
+            biomolecule.Biomolecule.set_termini = termini
             biomolecule.Biomolecule.repair_heavy = repair
             biomolecule.Biomolecule.add_hydrogens = addh
             try:
@@ -763,6 +825,7 @@ class RepairMonitor:
             finally:
                 biomolecule.Biomolecule.repair_heavy = o_rep
                 biomolecule.Biomolecule.add_hydrogens = o_add
+                biomolecule.Biomolecule.set_termini = o_term
 
         return cm()
 
@@ -770,6 +833,13 @@ class RepairMonitor:
 def repair_terms(rm):
     """[(term, expected string, case)] for the recorded residues."""
     out = []
+    for s in rm.splits:
+        if not any(s["marks"]):
+            continue
+        term = ('join " " (map (fun s => repeat_char (Ascii.ascii_of_nat 120) (List.length s)) (split_at bool (fun b => b) [] '
+                + L("true" if m else "false" for m in s["marks"]) + "))")
+        exp = " ".join("x" * n for n in s["segments"]) if not s["multi"] else "residues in several chains: " + " ".join(s["multi"][:4])
+        out.append((term, exp, {"what": "set_termini", "residue": f"chain {s['chain']}", "before": s["marks"], "after": s["segments"], "logged": s["multi"]}))
     for r in rm.repair:
         miss = [x for x in r["ref"] if not x.startswith("H") and x not in ("N+1", "C-1") and x not in r["before"]]
         near = L(f"({S(a)}, {L(map(S, r['near'].get(a, [])))})" for a in miss)
@@ -1317,6 +1387,8 @@ def outer_join(ctx, tag, atoms, meta, r, opts, ff):
     from harness import builder as B
 
     nfail = 0
+    # strands split off at a hidden chain end get a new chain letter: identity without the chain ID there
+    ck = (lambda c: "") if meta.get("hidden") else (lambda c: c)
     case = {"tag": tag, "args": r["args"], "ff": ff, "opts": opts, "pdb": r["pdb_text"]}
     if r.get("walk"):
         case["walk"] = r["walk"]  # scripted protocol walk: {residue: label path}; replay re-drives it
@@ -1347,7 +1419,7 @@ def outer_join(ctx, tag, atoms, meta, r, opts, ff):
     final = {}
     for res in bio.residues:
         for a in res.atoms:
-            final.setdefault((res.chain_id, str(res.res_seq) + res.ins_code, a.name), []).append(a)
+            final.setdefault((ck(res.chain_id), str(res.res_seq) + res.ins_code, a.name), []).append(a)
     # 1. input heavy atoms
     resi = B.residues_of(atoms)
     first_of_chain = {}
@@ -1361,7 +1433,7 @@ def outer_join(ctx, tag, atoms, meta, r, opts, ff):
             continue
         rn_ = a.resname if a.resname not in ("A", "C", "G", "U") else "R" + a.resname
         cname = _alt_table(rn_).get(a.name, a.name)  # the topology's alias table: one atom, several spellings
-        key = (a.chain, str(a.resseq) + a.icode, cname)
+        key = (ck(a.chain), str(a.resseq) + a.icode, cname)
         if key in seen_keys:
             continue  # another record (alt-loc copy, alias) of an atom already counted
         seen_keys.add(key)
@@ -1369,7 +1441,8 @@ def outer_join(ctx, tag, atoms, meta, r, opts, ff):
         if n == 1:
             continue
         is_nuc = a.resname in ("A", "C", "G", "U", "T", "DA", "DC", "DG", "DT", "RA", "RC", "RG", "RU")
-        if n == 0 and is_nuc and a.name in ("P", "OP1", "OP2", "O1P", "O2P") and first_of_chain[a.chain] == a.resseq:
+        five = {(ck(res.chain_id), str(res.res_seq) + res.ins_code) for res in bio.residues if getattr(res, "is5term", False)}
+        if n == 0 and is_nuc and a.name in ("P", "OP1", "OP2", "O1P", "O2P") and (first_of_chain[a.chain] == a.resseq or (ck(a.chain), str(a.resseq) + a.icode) in five):
             ctx.count("5'-phosphate-removed")
             continue
         if n == 0 and (a.chain, str(a.resseq) + a.icode, a.name) in deleted:
@@ -1382,7 +1455,7 @@ def outer_join(ctx, tag, atoms, meta, r, opts, ff):
     pq = B.parse_pqr(r["pqr_text"] or "")
     written = {}
     for p in pq:
-        written.setdefault((p["chain"], p["resseq"], p["name"]), []).append(p)
+        written.setdefault((ck(p["chain"]), p["resseq"], p["name"]), []).append(p)
     missed_ids = {id(a) for a in (missed or [])}
     miss_count = {}
     for a in missed or []:
@@ -1404,6 +1477,29 @@ def outer_join(ctx, tag, atoms, meta, r, opts, ff):
     for key, ps in written.items():
         if key not in final:
             fail({"site": "output", "atom_class": atom_class(key[2]), "condition": "line-without-final-atom"}, f"PQR line for {key} has no atom in the final model")
+    # 2a. the chain hierarchy and the flat residue list describe the same atoms, each exactly once
+    flat_ids = [id(a) for res in bio.residues for a in res.atoms]
+    chain_ids = [id(a) for a in bio.atoms]
+    res_in_chains = {}
+    for ch in bio.chains:
+        for res in ch.residues:
+            res_in_chains[id(res)] = res_in_chains.get(id(res), 0) + 1
+    multi = [res for res in bio.residues if res_in_chains.get(id(res), 0) != 1]
+    if multi:
+        fail({"site": "chain-hierarchy", "condition": "residue-in-%d-chains" % max(res_in_chains.get(id(x), 0) for x in multi), "mode": "clean" if clean else "full"},
+             f"{len(multi)} residue objects are not in exactly one chain (e.g. {multi[0]} in {res_in_chains.get(id(multi[0]), 0)}); biomolecule.atoms has {len(chain_ids)} atoms, the residue list {len(flat_ids)}")
+    elif sorted(flat_ids) != sorted(chain_ids):
+        fail({"site": "chain-hierarchy", "condition": "atoms-differ-from-residue-list"}, f"biomolecule.atoms has {len(chain_ids)} atoms, the residue list {len(flat_ids)}")
+    if r.get("pdb_output_text"):
+        cnt = {}
+        for a in atoms_from_pdb(r["pdb_output_text"]):
+            k_ = (ck(a.chain), str(a.resseq) + a.icode, a.name)
+            cnt[k_] = cnt.get(k_, 0) + 1
+        for key, objs in final.items():
+            if cnt.get(key, 0) != len(objs):
+                fail({"site": "pdb-output", "atom_class": atom_class(key[2]), "condition": f"written{cnt.get(key, 0)}x"},
+                     f"final atom {key} is in the --pdb-output file {cnt.get(key, 0)}x")
+                break
     # 2b. judged from the RETURNED model alone: (i) an atom that a patch applied to the residue removes
     # (and no later patch adds back) must be gone; (ii) no atom twice under two spellings
     defs_ = B.definitions()
@@ -1436,8 +1532,8 @@ def outer_join(ctx, tag, atoms, meta, r, opts, ff):
             continue
         req, opt, tpl, pos = ex
         names = [a.name for a in res.atoms]
-        rkey = (res.chain_id, str(res.res_seq) + res.ins_code)
-        given = {a.name for a in atoms if (a.chain, str(a.resseq) + a.icode) == rkey}
+        rkey = (ck(res.chain_id), str(res.res_seq) + res.ins_code)
+        given = {a.name for a in atoms if (ck(a.chain), str(a.resseq) + a.icode) == rkey}
         for n in sorted(set(names) - req - opt):
             if n in given or (n in ("OP1", "OP2", "O1P", "O2P") and ({"OP1", "O1P"} & given)):
                 continue  # an input atom the topology does not know: must be (and is, clause 2) written or unassigned
@@ -1448,7 +1544,7 @@ def outer_join(ctx, tag, atoms, meta, r, opts, ff):
             continue
         wnames = []
         for a in res.atoms:
-            wnames += [a.name] * len(written.get((res.chain_id, str(res.res_seq) + res.ins_code, a.name), []))
+            wnames += [a.name] * len(written.get((ck(res.chain_id), str(res.res_seq) + res.ins_code, a.name), []))
         if tpl[:1] in ("D", "R") and len(tpl) == 2:
             # a nucleotide keeps whichever spelling each phosphate oxygen came with; rebuilt ones get the template's
             ph = {"OP1": "O1P", "OP2": "O2P"}
@@ -1586,6 +1682,12 @@ def run(ctx):
     for i, (tag, atoms, meta) in enumerate(structs):
         for j, opts in enumerate(OPTION_SETS):
             full = tag.startswith(("all20", "variants", "carboxyl", "extra", "fliprich")) or tag in ("missing-heavy",)
+            if tag.startswith("hidden-ends"):
+                if opts in ([], ["--clean"], ["--assign-only"], ["--noopt"]):
+                    plan.append((tag, atoms, meta, opts, ["AMBER", "PARSE", "CHARMM"][(i + j) % 3], None))
+                    if opts in ([], ["--clean"]):
+                        plan.append((tag, atoms, meta, opts + ["PDBOUT"], ["AMBER", "PARSE", "CHARMM"][(i + j + 1) % 3], None))
+                continue
             if tag.startswith("hyd-"):
                 if opts not in ([], ["--neutraln", "--neutralc"], ["PH"], ["--noopt"], ["--assign-only"]):
                     continue
@@ -1754,7 +1856,13 @@ def run(ctx):
             if o.strip() != exp.strip():
                 ctx.cov["correspondence_disagreements"] += 1
                 corr_broken = True
+                if case["what"] == "set_termini" and case["logged"]:
+                    ctx.fail({"site": "set_termini", "condition": "split-is-not-a-regrouping"},
+                             f"{case['residue']}: hidden-end markers {case['before']} -> strands {case['after']}; residues in several chains: {case['logged'][:4]}",
+                             dict(case, signature="split"))
                 after = case.get("after") or []
+                if case["what"] == "set_termini":
+                    after = []
                 al_ = {"OP1": "O1P", "OP2": "O2P"}
                 can_ = [al_.get(x, x) for x in after]
                 dup_ = sorted({x for x in can_ if can_.count(x) > 1})
@@ -1763,7 +1871,7 @@ def run(ctx):
                              f"{case['residue']} after {case['what']}: {[x for x in after if al_.get(x, x) in dup_]} (one atom rebuilt next to its alias)",
                              dict(case, signature="repair-alias"))
                 if len([b for b in ctx.broken if "repair" in b["what"] or "add_hydrogens" in b["what"]]) < 4:
-                    ctx.broke("correspondence-broken", f"Model.NameProtocol.{case['what']} vs Biomolecule.{case['what']} (one residue)", f"model={o!r} real={exp!r}", case)
+                    ctx.broke("correspondence-broken", f"Model.NameProtocol.{'split_at' if case['what'] == 'set_termini' else case['what']} vs Biomolecule.{case['what']} (one residue / chain)", f"model={o!r} real={exp!r}", case)
     except core.CoqEvalError as e:
         corr_broken = True
         ctx.broke("correspondence-broken", "repair model evaluation failed", str(e)[:1500])
